@@ -53,12 +53,13 @@ type cidState struct {
 
 // tokenizeAll collects the tokens (small inputs only).
 func tokenizeAll(data []byte) (toks []token, jk *junk) {
-	jk = tokenize(data, func(t token) { toks = append(toks, t) })
+	jk = tokenize(data, true, func(t token) { toks = append(toks, t) })
 	return
 }
 
 // tokenize calls emit for every chunk in order (a 16 MB message at chunk size 1 is 16 M chunks: nothing is kept).
-func tokenize(data []byte, emit func(token)) (jk *junk) {
+// followSCS = false is used for a diagnostic hint only: how the bytes frame if the chunk size never changes.
+func tokenize(data []byte, followSCS bool, emit func(token)) (jk *junk) {
 	cs := 128
 	st := map[int]*cidState{}
 	started := 0
@@ -153,7 +154,7 @@ func tokenize(data []byte, emit func(token)) (jk *junk) {
 		c.got += t.Pay
 		if c.got >= c.length {
 			c.got = 0
-			if c.typ == 1 && len(c.body) >= 4 {
+			if followSCS && c.typ == 1 && len(c.body) >= 4 {
 				if v := int(uint32(c.body[0])<<24|uint32(c.body[1])<<16|uint32(c.body[2])<<8|uint32(c.body[3])) & 0x7fffffff; v > 0 {
 					cs = v
 				}
